@@ -31,6 +31,9 @@ MANIFEST = dict(
          "model's result in base units equals exact dimensional arithmetic (C03_expr, induction over trees; all "
          "closed under the global context). Exact level only: f64 rounding is outside the model and is bounded by "
          "the correspondence check (relative tolerance 1e-9 on the operand magnitude); non-integer powers and the "
+         "Composed with the vm area's compiler-correctness theorem (C03_C09_composition, VM/QtyInstance.v): for programs "
+         "of lets and expression statements over quantity literals, names, + - * / ^n -> the model machine running the "
+         "model-compiled program yields a quantity whose size in base units is exact dimensional arithmetic. The "
          "five Planck units (half-integer exponents) are outside the exact value scope and only checked numerically "
          "(C03_convert_complete does cover them).",
     design_ref="DESIGN.md §6 C03; design/qty.md",
@@ -58,6 +61,9 @@ def run(chk):
     proved = chk.prove("Props.C03", THEOREMS,
                        ["theories/Props/C03.vo", "theories/Qty/Prelude.vo", "theories/Qty/DisplayExec.vo", "theories/Qty/PreludeF.vo"],
                        extra_obligations=["Qty.Prelude." + l for l in TABLE_LEMMAS])
+    # cross-area composition with the compiler / machine model of the vm area (VM/QtyInstance.v)
+    proved2 = chk.prove("Props.C03C09", ["C03_C09_composition", "C03_C09_expression"], ["theories/Props/C03C09.vo"])
+    proved = proved and proved2
     chk.trusted += [
         "model Qty/Model.v is a hand port of numbat/src/{unit,quantity,product,prefix}.rs (named per function in the file)",
         "Gen/PreludeUnits.v is generated on every run from the hook dump numbat::verif::qty (unit table after `use prelude`); f64 factors as exact rationals",
